@@ -55,6 +55,7 @@ def run(ctx):
     _entry(ctx, model)
     check_cse_mixin(ctx, model)
     _mixin_mro(ctx, model)
+    _cache_lifetime(ctx, model)
 
 
 def _is_cse_ctor(v):
@@ -674,3 +675,105 @@ def _mixin_mro(ctx, model):
                                      ("rec", ("field", "child"), True, ()))
     ctx.ob("E/EvaluationMapper/cse-means-child", ok, ev.loc(),
            "a wrapper evaluates to its child")
+
+
+def _reached_in_evaluation(family):
+    """method names reachable through self.<name>(...) / super().<name>(...)
+    from the entry points of an evaluation (__call__, rec, handlers)"""
+    calls = {}
+    for c in family:
+        for name, mem in c.members.items():
+            if mem.kind != "func":
+                continue
+            out = calls.setdefault(name, set())
+            for x in ast.walk(mem.node):
+                if isinstance(x, ast.Attribute) and (
+                        isinstance(x.value, ast.Name) or ast.unparse(
+                            x.value).startswith("super(")):
+                    out.add(x.attr)
+    seen = {n for n in calls if n in ("__call__", "rec") or n.startswith("map_")}
+    todo = list(seen)
+    while todo:
+        for m in calls.get(todo.pop(), ()):
+            if m in calls and m not in seen:
+                seen.add(m)
+                todo.append(m)
+    return seen
+
+
+def _cache_lifetime(ctx, model):
+    """"evaluating all of them with one evaluator" spans several top-level
+    calls: the mix-in's table lives as long as the evaluator.  Its attribute
+    (read off the mix-in's handler) is created lazily there; in the evaluator
+    family nothing else rebinds, deletes or empties it outside __init__."""
+    mx = model.cls(f"{M}:CSECachingMapperMixin")
+    h = mx.members.get("map_common_subexpression")
+    if h is None or h.kind != "func":
+        raise AnalysisError("CSECachingMapperMixin.map_common_subexpression "
+                            "not found")
+    me = h.node.args.args[0].arg
+    attrs = {t.attr for st in ast.walk(h.node) if isinstance(st, ast.Assign)
+             for t in st.targets if isinstance(t, ast.Attribute)
+             and isinstance(t.value, ast.Name) and t.value.id == me}
+    if len(attrs) != 1:
+        raise AnalysisError("the mix-in's cache attribute was not recognised")
+    attr = attrs.pop()
+    ev = model.cls("pymbolic.mapper.evaluator:EvaluationMapper")
+    family = []
+    for c in model.subclasses(ev):
+        for k in model.mro(c):
+            if isinstance(k, ClassInfo) and k not in family:
+                family.append(k)
+    n_fn = 0
+    for c in family:
+        for name, mem in c.members.items():
+            if mem.kind != "func" or (c is mx and mem is h):
+                continue
+            n_fn += 1
+            if not mem.node.args.args:
+                continue
+            slf = mem.node.args.args[0].arg
+            bad = None
+            for st in ast.walk(mem.node):
+                tg = []
+                if isinstance(st, ast.Assign):
+                    tg = st.targets
+                elif isinstance(st, (ast.AugAssign, ast.AnnAssign)):
+                    tg = [st.target]
+                elif isinstance(st, ast.Delete):
+                    tg = st.targets
+                for t in tg:
+                    for x in ast.walk(t):
+                        if isinstance(x, ast.Attribute) and x.attr == attr and \
+                                isinstance(x.value, ast.Name) and \
+                                x.value.id == slf and not isinstance(
+                                    x.ctx, ast.Load):
+                            bad = st
+                if isinstance(st, ast.Call) and isinstance(
+                        st.func, ast.Attribute) and st.func.attr in (
+                        "clear", "pop", "popitem") and ast.unparse(
+                        st.func.value) == f"{slf}.{attr}":
+                    bad = st
+                if isinstance(st, ast.Call) and ast.unparse(st.func) in (
+                        "setattr", "delattr", "object.__setattr__") and len(
+                        st.args) >= 2 and isinstance(st.args[1], ast.Constant) \
+                        and st.args[1].value == attr:
+                    bad = st
+            if bad is None or name == "__init__":
+                continue
+            if name not in _reached_in_evaluation(family):
+                # e.g. a reset method the user calls on purpose
+                ctx.ob(f"O/evaluator/{c.name}.{name}/keeps-{attr}", True,
+                       c.module.loc(bad), f"{c.name}.{name} empties the table "
+                       "but no evaluation reaches it", nontrivial=False)
+                continue
+            ctx.ob(f"O/evaluator/{c.name}.{name}/keeps-{attr}", False,
+                   c.module.loc(bad),
+                   f"{c.name}.{name} rebinds or empties self.{attr}, the table "
+                   "in which the evaluator remembers the value of each wrapper: "
+                   "a wrapper shared between expressions evaluated one after "
+                   "the other by one evaluator is computed again")
+    ctx.ob(f"O/evaluator/only-the-mix-in-writes-{attr}", True, mx.loc(),
+           f"{n_fn} methods of the evaluator family scanned",
+           {"classes": [c.name for c in family]}, nontrivial=False)
+    ctx.floor("evaluator-family methods scanned", n_fn, 60)
